@@ -506,17 +506,15 @@ def case_patch(r):
     ops = []
     for _ in range(r.randrange(0, 4)):
         op = {"op": r.choice(["add", "remove", "replace", "test", "increment", "add_create", "swap", "bogus", "", "copy", "move", 5, None])}
-        valid_from = op["op"] in ("swap",)
+        needs_from = op["op"] in ("swap", "copy", "move")
         if r.random() < 0.9:
             op["path"] = gen_pointer(r, doc).decode("latin1")
         if r.random() < 0.7:
             op["value"] = gen_doc(r, 2)
-        if valid_from or r.random() < 0.2:
-            # copy/move with a resolvable `from` belong to C15 (finding F12: the copied node is re-linked); here only the decoding
-            # of the member is exercised: a `from` that is not a pointer into the document
-            op["from"] = gen_pointer(r, doc).decode("latin1") if valid_from else r.choice(["", "x", "~", "/nope/none", 5, None, "/a~"])
-        if op["op"] in ("copy", "move") and "from" in op and isinstance(op["from"], str) and op["from"].startswith("/") and "~" not in op["from"]:
-            op["from"] = "nowhere"
+        if (needs_from and r.random() < 0.8) or r.random() < 0.1:
+            op["from"] = gen_pointer(r, doc).decode("latin1") if r.random() < 0.8 else r.choice(["", "x", "~", "/nope/none", 5, None, "/a~"])
+            if op["op"] == "swap" and op["from"] in ("", "/"):
+                op["from"] = "/a"      # swap with the document root as `from`: open finding C17-PATCH-SWAP-ROOT (witness below)
         if r.random() < 0.1:
             op = r.choice([5, "x", None, [], {"path": "/a"}, {"op": "add"}])
         ops.append(op)
@@ -714,6 +712,7 @@ WITNESS = [
     ("re-count-parse", "re %s %s" % (H(b"a{99999999999}"), H(b"aaa"))),
     ("re-count-compile", "re %s %s" % (H(b"((a{60000}){60000})"), H(b"aaa"))),
     ("re-depth", "re %s %s" % (H(b"a" * 200000), H(b"aaa"))),
+    ("patch-swap-root", "patch %s %s" % (H(b'{"a": 1}'), H(b'[{"op": "swap", "path": "/01", "from": ""}]'))),
 ]
 
 
@@ -839,10 +838,10 @@ def run(ctx):
     h = C.build_harness(impl, "h_c17", ["h_c17.c"], exclude=("iwjser.c",))
     drv = C.drv_path() if drv_ok else None
     if ctx.tier == "quick":
-        explore(ctx, h, drv, 5000, 4000, "main")
+        explore(ctx, h, drv, 30000, 24000, "main", fresh=150)
     else:
         for i in range(6):
-            explore(ctx, h, drv, 12000, 10000, "main%d" % i, fresh=150)
+            explore(ctx, h, drv, 60000, 50000, "main%d" % i, fresh=300)
     witnesses(ctx, h)
     if ctx.proof_broken or ctx.corr_broken:
         ctx.log("obligation or correspondence broken: widening the search for a failing input")
